@@ -436,6 +436,32 @@ func CheckC01(run *ev.Run) {
 	build("c01rsp", tableSpecResponses(), nil, []string{"server", "client"}, nil, "response layouts")
 	report()
 	jobs = nil
+	// a definition whose additionalProperties reach itself: run through the CLI in a process of its own (the generator
+	// overflows its stack on it, which no recover() survives)
+	if sw, berr := BuildSwagger(); berr == nil {
+		rec := []byte(`{"swagger":"2.0","info":{"title":"t","version":"1"},"paths":{},"definitions":{"node":{"type":"object","properties":{"n":{"type":"string"}},"additionalProperties":{"$ref":"#/definitions/node"}}}}`)
+		if ok, _ := specValid(rec); ok {
+			root, specPath, _, nerr := NewTarget("c01rec", rec)
+			if nerr == nil {
+				res := Run(root, 180*time.Second, sw, "generate", "model", "-f", specPath, "-t", "target")
+				run.Traces++
+				run.Case("recursive-additionalProperties")
+				if res.Code != 0 {
+					st["generation-crashes:recursive-map"]++
+					why := "exit status " + fmt.Sprint(res.Code)
+					if strings.Contains(res.Out, "stack overflow") {
+						why = "fatal error: stack overflow"
+					}
+					run.Deviation("generate:model:crash:recursive-additionalProperties", "a valid spec is not generated: "+why+" in the type resolver on a definition whose additionalProperties refer to the definition itself",
+						map[string]interface{}{"spec": json.RawMessage(rec), "how": "swagger generate model -f spec.json -t target", "output_head": clip(res.Out, 600)})
+				} else {
+					st["recursive-map-generated"]++
+				}
+				_ = os.RemoveAll(root)
+			}
+		}
+		_ = os.Remove(sw)
+	}
 	if len(excluded) > 0 && !run.HasConcrete() {
 		run.Deviation("file-excluded", fmt.Sprintf("generated file names that go build leaves out on some platform: %v", excluded), map[string]interface{}{"names": excluded})
 	}
